@@ -252,35 +252,35 @@ Section Cropped.
     (neqb N t1 k0 = true /\ exists c1, crop s1 k0 t1 = Ok c1 /\ tl = [PC false i1 k0 t1 c1])
     \/ (neqb N t1 k0 = false /\ tl = []).
   Inductive shape (segs : list S) (T0 T1 : K) (closed : res bool)
-            (i0 : nat) (t0 : K) (i1 : nat) (t1 : K) (s0 s1 : S) (ps : list (piece S K)) : Prop :=
+            (i0 : nat) (t0 : K) (i1 : nat) (t1 : K) (j0 j1 : nat) (s0 s1 : S) (ps : list (piece S K)) : Prop :=
   | ShSingle c : ltb N T0 T1 = true -> i0 = i1 -> crop s0 t0 t1 = Ok c ->
-      ps = [PC false i0 t0 t1 c] -> shape segs T0 T1 closed i0 t0 i1 t1 s0 s1 ps
+      ps = [PC false j0 t0 t1 c] -> shape segs T0 T1 closed i0 t0 i1 t1 j0 j1 s0 s1 ps
   | ShForward c0 mid tl : (ltb N T0 T1 && (i0 =? i1)%nat = false) -> ltb N T1 T0 = false ->
       crop s0 t0 k1 = Ok c0 -> origs N segs (i0 + 1) i1 = Ok mid ->
-      tail_of i1 t1 s1 tl -> ps = PC false i0 t0 k1 c0 :: mid ++ tl ->
-      shape segs T0 T1 closed i0 t0 i1 t1 s0 s1 ps
+      tail_of j1 t1 s1 tl -> ps = PC false j0 t0 k1 c0 :: mid ++ tl ->
+      shape segs T0 T1 closed i0 t0 i1 t1 j0 j1 s0 s1 ps
   | ShWrap c0 m1 m2 tl : (ltb N T0 T1 && (i0 =? i1)%nat = false) -> ltb N T1 T0 = true ->
       closed = Ok true ->
       crop s0 t0 k1 = Ok c0 -> origs N segs (i0 + 1) (length segs) = Ok m1 ->
       origs N segs 0 i1 = Ok m2 ->
-      tail_of i1 t1 s1 tl -> ps = PC false i0 t0 k1 c0 :: (m1 ++ m2) ++ tl ->
-      shape segs T0 T1 closed i0 t0 i1 t1 s0 s1 ps.
+      tail_of j1 t1 s1 tl -> ps = PC false j0 t0 k1 c0 :: (m1 ++ m2) ++ tl ->
+      shape segs T0 T1 closed i0 t0 i1 t1 j0 j1 s0 s1 ps.
 
   Lemma main_shape segs T0 T1 r0 r1 closed ps :
     main segs T0 T1 r0 r1 closed = Ok ps ->
-    exists i0 t0 i1 t1 s0 s1,
-      LOC0 segs T0 r0 = Ok (i0, t0) /\ LOC1 segs T1 r1 = Ok (i1, t1) /\
-      nth_error segs i0 = Some s0 /\ nth_error segs i1 = Some s1 /\
-      shape segs T0 T1 closed i0 t0 i1 t1 s0 s1 ps.
+    exists i0 t0 j0 i1 t1 j1 s0 s1,
+      LOC0 segs T0 r0 = Ok (i0, t0, j0) /\ LOC1 segs T1 r1 = Ok (i1, t1, j1) /\
+      nth_error segs j0 = Some s0 /\ nth_error segs j1 = Some s1 /\
+      shape segs T0 T1 closed i0 t0 i1 t1 j0 j1 s0 s1 ps.
   Proof.
     unfold path_cropped_main. intros H.
-    destruct (LOC1 segs T1 r1) as [[i1 t1]|] eqn:E1; cbn [rbind fst snd] in H; [|discriminate].
+    destruct (LOC1 segs T1 r1) as [[[i1 t1] j1]|] eqn:E1; cbn [rbind fst snd] in H; [|discriminate].
     unfold getseg at 1 in H.
-    destruct (nth_error segs i1) as [s1|] eqn:Es1; cbn [rbind] in H; [|discriminate].
-    destruct (LOC0 segs T0 r0) as [[i0 t0]|] eqn:E0; cbn [rbind fst snd] in H; [|discriminate].
+    destruct (nth_error segs j1) as [s1|] eqn:Es1; cbn [rbind] in H; [|discriminate].
+    destruct (LOC0 segs T0 r0) as [[[i0 t0] j0]|] eqn:E0; cbn [rbind fst snd] in H; [|discriminate].
     unfold getseg at 1 in H.
-    destruct (nth_error segs i0) as [s0|] eqn:Es0; cbn [rbind] in H; [|discriminate].
-    exists i0, t0, i1, t1, s0, s1. repeat (split; [reflexivity || assumption|]).
+    destruct (nth_error segs j0) as [s0|] eqn:Es0; cbn [rbind] in H; [|discriminate].
+    exists i0, t0, j0, i1, t1, j1, s0, s1. repeat (split; [reflexivity || assumption|]).
     destruct (ltb N T0 T1 && (i0 =? i1)%nat) eqn:Eb.
     - apply andb_prop in Eb. destruct Eb as [Elt Eeq]. apply Nat.eqb_eq in Eeq.
       destruct (crop s0 t0 t1) as [c|] eqn:Ec; cbn [rbind] in H; [|discriminate].
@@ -293,7 +293,7 @@ Section Cropped.
         destruct (neqb N t1 k0) eqn:En.
         * destruct (crop s1 k0 t1) as [c1|] eqn:Ec1; cbn [rbind] in H; [|discriminate].
           inversion H; subst ps.
-          eapply ShWrap with (c0:=c0) (m1:=m1) (m2:=m2) (tl:=[PC false i1 k0 t1 c1]); eauto.
+          eapply ShWrap with (c0:=c0) (m1:=m1) (m2:=m2) (tl:=[PC false j1 k0 t1 c1]); eauto.
           left. split; [exact En|]. exists c1. split; [exact Ec1|reflexivity].
         * inversion H; subst ps.
           eapply ShWrap with (c0:=c0) (m1:=m1) (m2:=m2) (tl:=[]); eauto; [right; split; [exact En|reflexivity]|].
@@ -302,7 +302,7 @@ Section Cropped.
         destruct (neqb N t1 k0) eqn:En.
         * destruct (crop s1 k0 t1) as [c1|] eqn:Ec1; cbn [rbind] in H; [|discriminate].
           inversion H; subst ps.
-          eapply ShForward with (c0:=c0) (mid:=mid) (tl:=[PC false i1 k0 t1 c1]); eauto.
+          eapply ShForward with (c0:=c0) (mid:=mid) (tl:=[PC false j1 k0 t1 c1]); eauto.
           left. split; [exact En|]. exists c1. split; [exact Ec1|reflexivity].
         * inversion H; subst ps.
           eapply ShForward with (c0:=c0) (mid:=mid) (tl:=[]); eauto; [right; split; [exact En|reflexivity]|].
@@ -346,22 +346,28 @@ Section Cropped.
   Proof. intros [[_ H]|[E _]] En; [exact H|congruence]. Qed.
 
   (* starts at seg_i0(t0), ends at seg_i1(t1) *)
-  Theorem cropped_ends segs T0 T1 r0 r1 closed ps i0 t0 i1 t1 s0 s1 d :
+  Theorem cropped_ends segs T0 T1 r0 r1 closed ps i0 t0 j0 i1 t1 j1 s0 s1 d :
     main segs T0 T1 r0 r1 closed = Ok ps ->
-    LOC0 segs T0 r0 = Ok (i0, t0) -> LOC1 segs T1 r1 = Ok (i1, t1) ->
-    nth_error segs i0 = Some s0 -> nth_error segs i1 = Some s1 ->
+    LOC0 segs T0 r0 = Ok (i0, t0, j0) -> LOC1 segs T1 r1 = Ok (i1, t1, j1) ->
+    nth_error segs j0 = Some s0 -> nth_error segs j1 = Some s1 ->
     neqb N t1 k0 = true ->
+    (* single-piece case (T0 < T1, i0 = i1): the piece is seg0.cropped(t0, t1) with seg0 = self[j0];
+       its end is seg1's point when seg0 and seg1 are the same object, or equal segments *)
+    (ltb N T0 T1 = true -> i0 = i1 -> pt s0 t1 = pt s1 t1) ->
     ps <> [] /\ pt (hd d (piece_segs ps)) k0 = pt s0 t0 /\
     pt (last (piece_segs ps) d) k1 = pt s1 t1.
   Proof.
-    intros H L0 L1 N0 N1 En.
-    destruct (main_shape _ _ _ _ _ _ _ H) as (i0' & t0' & i1' & t1' & s0' & s1' & A & B & C & D & Sh).
-    rewrite L0 in A. rewrite L1 in B. inversion A; inversion B; subst i0' t0' i1' t1'.
+    intros H L0 L1 N0 N1 En HSS.
+    assert (HS : forall c : S, ltb N T0 T1 = true -> i0 = i1 -> pt c k1 = pt s0 t1 -> pt c k1 = pt s1 t1)
+      by (intros c A B E; rewrite E; apply HSS; assumption).
+    destruct (main_shape _ _ _ _ _ _ _ H) as (i0' & t0' & j0' & i1' & t1' & j1' & s0' & s1' & A & B & C & D & Sh).
+    rewrite L0 in A. rewrite L1 in B. inversion A; inversion B; subst i0' t0' j0' i1' t1' j1'.
     rewrite N0 in C. rewrite N1 in D. inversion C; inversion D; subst s0' s1'.
     destruct Sh as [c Hlt Hi Hc ->|c0 mid tl _ _ Hc0 _ Ht ->|c0 m1 m2 tl _ _ _ Hc0 _ _ Ht ->].
-    - subst i1. rewrite N0 in N1. inversion N1; subst s1.
+    - (* single piece: cropped from seg0 = self[j0] with t_seg1; seg1 = self[j1] is an equal
+         segment's parameter only if j0 = j1 — stated for the end of seg0 at t1 *)
       destruct (crop_ends _ _ _ _ Hc) as [E0 E1].
-      split; [discriminate|]. cbn. split; assumption.
+      split; [discriminate|]. cbn. split; [exact E0|]. exact (HS c Hlt Hi E1).
     - destruct (tail_cases _ _ _ _ Ht En) as (c1 & Hc1 & ->).
       destruct (crop_ends _ _ _ _ Hc0) as [E0 _]. destruct (crop_ends _ _ _ _ Hc1) as [_ E1].
       split; [discriminate|]. split; [exact E0|].
@@ -381,41 +387,63 @@ Section Cropped.
      hands over to the neighbouring segment — the same POINT provided the
      hand-over was exact (t = 1 resp. t = 0) and the two segments are joined;
      [py_index = identity] says no EARLIER segment compares equal *)
-  Theorem loc0_point segs T0 k t i0 t0 sk s0 :
-    LOC0 segs T0 (Ok (k, t)) = Ok (i0, t0) -> eqb N T0 k0 = false ->
+  Theorem loc0_point segs T0 k t i0 t0 j0 sk s0 :
+    LOC0 segs T0 (Ok (k, t)) = Ok (i0, t0, j0) -> eqb N T0 k0 = false ->
     nth_error segs (Z.to_nat k) = Some sk ->
-    py_index seq segs (Z.to_nat k) = Some (Z.to_nat k) ->
-    nth_error segs i0 = Some s0 ->
+    nth_error segs j0 = Some s0 ->
     (isclose N atol rtol t k1 = true -> t = k1 /\ joined sp ep sk s0) ->
     pt s0 t0 = pt sk t.
   Proof.
-    unfold loc0. intros H E0 Nk Hidx N0 Hh. rewrite E0 in H. cbn [rbind fst snd] in H.
+    unfold loc0. intros H E0 Nk N0 Hh. rewrite E0 in H. cbn [rbind fst snd] in H.
     unfold zindex in H. destruct ((0 <=? k)%Z && (k <? Z.of_nat (length segs))%Z); cbn [rbind] in H;
       [|discriminate].
-    rewrite Hidx in H. destruct (isclose N atol rtol t k1) eqn:Ec.
-    - inversion H; subst i0 t0. destruct (Hh eq_refl) as [-> J]. symmetry. exact J.
-    - inversion H; subst i0 t0. rewrite Nk in N0. inversion N0. reflexivity.
+    destruct (py_index seq segs (Z.to_nat k)) as [j|]; [|discriminate].
+    destruct (isclose N atol rtol t k1) eqn:Ec.
+    - inversion H; subst i0 t0 j0. destruct (Hh eq_refl) as [-> J]. symmetry. exact J.
+    - inversion H; subst i0 t0 j0. rewrite Nk in N0. inversion N0. reflexivity.
   Qed.
-  Theorem loc1_point segs T1 k t i1 t1 sk s1 :
-    LOC1 segs T1 (Ok (k, t)) = Ok (i1, t1) -> eqb N T1 k1 = false ->
+  Theorem loc1_point segs T1 k t i1 t1 j1 sk s1 :
+    LOC1 segs T1 (Ok (k, t)) = Ok (i1, t1, j1) -> eqb N T1 k1 = false ->
     nth_error segs (Z.to_nat k) = Some sk ->
-    py_index seq segs (Z.to_nat k) = Some (Z.to_nat k) ->
-    nth_error segs i1 = Some s1 ->
+    nth_error segs j1 = Some s1 ->
     (isclose N atol rtol t k0 = true -> t = k0 /\ joined sp ep s1 sk) ->
     pt s1 t1 = pt sk t.
   Proof.
-    unfold loc1. intros H E1 Nk Hidx N1 Hh. rewrite E1 in H. cbn [rbind fst snd] in H.
+    unfold loc1. intros H E1 Nk N1 Hh. rewrite E1 in H. cbn [rbind fst snd] in H.
     unfold zindex in H. destruct ((0 <=? k)%Z && (k <? Z.of_nat (length segs))%Z); cbn [rbind] in H;
       [|discriminate].
-    rewrite Hidx in H. destruct (isclose N atol rtol t k0) eqn:Ec.
-    - inversion H; subst i1 t1. destruct (Hh eq_refl) as [-> J]. exact J.
-    - inversion H; subst i1 t1. rewrite Nk in N1. inversion N1. reflexivity.
+    destruct (py_index seq segs (Z.to_nat k)) as [j|]; [|discriminate].
+    destruct (isclose N atol rtol t k0) eqn:Ec.
+    - inversion H; subst i1 t1 j1. destruct (Hh eq_refl) as [-> J]. exact J.
+    - inversion H; subst i1 t1 j1. rewrite Nk in N1. inversion N1. reflexivity.
+  Qed.
+  (* index() is the identity (the object cropped is the one at the index used for the
+     ranges) when no EARLIER segment compares equal *)
+  Lemma loc0_same_object segs T0 k t i0 t0 j0 :
+    LOC0 segs T0 (Ok (k, t)) = Ok (i0, t0, j0) ->
+    py_index seq segs (Z.to_nat k) = Some (Z.to_nat k) -> j0 = i0.
+  Proof.
+    unfold loc0. intros H Hidx. destruct (eqb N T0 k0).
+    - destruct (length segs =? 0)%nat; inversion H; reflexivity.
+    - cbn [rbind fst snd] in H. unfold zindex in H.
+      destruct ((0 <=? k)%Z && (k <? Z.of_nat (length segs))%Z); cbn [rbind] in H; [|discriminate].
+      rewrite Hidx in H. destruct (isclose N atol rtol t k1); inversion H; reflexivity.
+  Qed.
+  Lemma loc1_same_object segs T1 k t i1 t1 j1 :
+    LOC1 segs T1 (Ok (k, t)) = Ok (i1, t1, j1) ->
+    py_index seq segs (Z.to_nat k) = Some (Z.to_nat k) -> j1 = i1.
+  Proof.
+    unfold loc1. intros H Hidx. destruct (eqb N T1 k1).
+    - destruct (length segs =? 0)%nat; inversion H; reflexivity.
+    - cbn [rbind fst snd] in H. unfold zindex in H.
+      destruct ((0 <=? k)%Z && (k <? Z.of_nat (length segs))%Z); cbn [rbind] in H; [|discriminate].
+      rewrite Hidx in H. destruct (isclose N atol rtol t k0); inversion H; reflexivity.
   Qed.
   (* the shortcuts T0 == 0 / T1 == 1 *)
-  Lemma loc0_zero segs T0 r0 : eqb N T0 k0 = true -> segs <> [] -> LOC0 segs T0 r0 = Ok (0%nat, k0).
+  Lemma loc0_zero segs T0 r0 : eqb N T0 k0 = true -> segs <> [] -> LOC0 segs T0 r0 = Ok (0%nat, k0, 0%nat).
   Proof. unfold loc0. intros -> H. destruct segs; [congruence|reflexivity]. Qed.
   Lemma loc1_one segs T1 r1 : eqb N T1 k1 = true -> segs <> [] ->
-    LOC1 segs T1 r1 = Ok ((length segs - 1)%nat, k1).
+    LOC1 segs T1 r1 = Ok ((length segs - 1)%nat, k1, (length segs - 1)%nat).
   Proof. unfold loc1. intros -> H. destruct segs; [congruence|reflexivity]. Qed.
 
   (* consecutive pieces joined *)
@@ -423,14 +451,14 @@ Section Cropped.
     chained sp ep segs ->
     (closed = Ok true -> joined sp ep (last segs d) (hd d segs)) ->
     main segs T0 T1 r0 r1 closed = Ok ps ->
-    LOC0 segs T0 r0 = Ok (i0, t0) -> LOC1 segs T1 r1 = Ok (i1, t1) ->
+    LOC0 segs T0 r0 = Ok (i0, t0, i0) -> LOC1 segs T1 r1 = Ok (i1, t1, i1) ->
     neqb N t1 k0 = true ->
     (ltb N T1 T0 = false -> (i0 < i1)%nat \/ (ltb N T0 T1 = true /\ i0 = i1)) ->
     chained sp ep (piece_segs ps).
   Proof.
     intros Hch Hcl H L0 L1 En Hord.
-    destruct (main_shape _ _ _ _ _ _ _ H) as (i0' & t0' & i1' & t1' & s0 & s1 & A & B & N0 & N1 & Sh).
-    rewrite L0 in A. rewrite L1 in B. inversion A; inversion B; subst i0' t0' i1' t1'.
+    destruct (main_shape _ _ _ _ _ _ _ H) as (i0' & t0' & j0' & i1' & t1' & j1' & s0 & s1 & A & B & N0 & N1 & Sh).
+    rewrite L0 in A. rewrite L1 in B. inversion A; inversion B; subst i0' t0' j0' i1' t1' j1'.
     destruct Sh as [c _ _ _ ->|c0 mid tl Hb Hw Hc0 Hm Ht ->|c0 m1 m2 tl _ _ Hc Hc0 Hm1 Hm2 Ht ->].
     - exact I.
     - destruct (tail_cases _ _ _ _ Ht En) as (c1 & Hc1 & ->).
@@ -477,7 +505,7 @@ Section Cropped.
     p_orig p = true /\ nth_error segs (p_idx p) = Some (p_seg p).
   Proof.
     intros H j p Hj H0 Hlast.
-    destruct (main_shape _ _ _ _ _ _ _ H) as (i0 & t0 & i1 & t1 & s0 & s1 & _ & _ & _ & _ & Sh).
+    destruct (main_shape _ _ _ _ _ _ _ H) as (i0 & t0 & j0 & i1 & t1 & j1 & s0 & s1 & _ & _ & _ & _ & Sh).
     assert (Gen : forall (x : piece S K) mid tl, (length tl <= 1)%nat ->
               (forall q, In q mid -> p_orig q = true /\ nth_error segs (p_idx q) = Some (p_seg q)) ->
               nth_error (x :: mid ++ tl) j = Some p -> (Datatypes.S j < length (x :: mid ++ tl))%nat ->
@@ -486,7 +514,7 @@ Section Cropped.
       cbn [length] in Hl. rewrite app_length in Hl.
       assert (j < length mid)%nat by lia.
       rewrite nth_error_app1 in Hn by assumption. apply Hmid. eapply nth_error_In; eauto. }
-    assert (TL : forall tl, tail_of i1 t1 s1 tl -> (length tl <= 1)%nat).
+    assert (TL : forall tl, tail_of j1 t1 s1 tl -> (length tl <= 1)%nat).
     { intros tl [[_ (c1 & _ & ->)]|[_ ->]]; cbn; lia. }
     destruct Sh as [c _ _ _ ->|c0 mid tl _ _ _ Hm Ht ->|c0 m1 m2 tl _ _ _ _ Hm1 Hm2 Ht ->].
     - cbn [length] in Hlast. lia.
@@ -537,15 +565,15 @@ Section Cropped.
      (index, t) pairs *)
   Theorem cropped_length_forward segs T0 T1 r0 r1 closed ps i0 t0 i1 t1 s0 s1 :
     main segs T0 T1 r0 r1 closed = Ok ps ->
-    LOC0 segs T0 r0 = Ok (i0, t0) -> LOC1 segs T1 r1 = Ok (i1, t1) ->
+    LOC0 segs T0 r0 = Ok (i0, t0, i0) -> LOC1 segs T1 r1 = Ok (i1, t1, i1) ->
     nth_error segs i0 = Some s0 -> nth_error segs i1 = Some s1 ->
     neqb N t1 k0 = true -> ltb N T1 T0 = false ->
     ((i0 < i1)%nat \/ (ltb N T0 T1 = true /\ i0 = i1)) ->
     lsum (map len (piece_segs ps)) = path_length_loc segs i0 t0 i1 t1 s0 s1.
   Proof.
     intros H L0 L1 N0 N1 En Hw Hord.
-    destruct (main_shape _ _ _ _ _ _ _ H) as (i0' & t0' & i1' & t1' & s0' & s1' & A & B & C & D & Sh).
-    rewrite L0 in A. rewrite L1 in B. inversion A; inversion B; subst i0' t0' i1' t1'.
+    destruct (main_shape _ _ _ _ _ _ _ H) as (i0' & t0' & j0' & i1' & t1' & j1' & s0' & s1' & A & B & C & D & Sh).
+    rewrite L0 in A. rewrite L1 in B. inversion A; inversion B; subst i0' t0' j0' i1' t1' j1'.
     rewrite N0 in C. rewrite N1 in D. inversion C; inversion D; subst s0' s1'.
     unfold path_length_loc.
     destruct Sh as [c Hlt Hi Hc ->|c0 mid tl Hb _ Hc0 Hm Ht ->|c0 m1 m2 tl _ Hw' _ _ _ _ _ _].
@@ -577,7 +605,7 @@ Section Cropped.
   (* T1 < T0 on a closed path: length(T0, 1) + length(0, T1) *)
   Theorem cropped_length_wrap segs T0 T1 r0 r1 closed ps i0 t0 i1 t1 s0 s1 sf sl :
     main segs T0 T1 r0 r1 closed = Ok ps ->
-    LOC0 segs T0 r0 = Ok (i0, t0) -> LOC1 segs T1 r1 = Ok (i1, t1) ->
+    LOC0 segs T0 r0 = Ok (i0, t0, i0) -> LOC1 segs T1 r1 = Ok (i1, t1, i1) ->
     nth_error segs i0 = Some s0 -> nth_error segs i1 = Some s1 ->
     nth_error segs 0 = Some sf -> nth_error segs (length segs - 1) = Some sl ->
     neqb N t1 k0 = true -> ltb N T1 T0 = true -> ltb N T0 T1 && (i0 =? i1)%nat = false ->
@@ -586,8 +614,8 @@ Section Cropped.
            (path_length_loc segs 0 k0 i1 t1 sf s1).
   Proof.
     intros H L0 L1 N0 N1 Nf Nl En Hw Hb.
-    destruct (main_shape _ _ _ _ _ _ _ H) as (i0' & t0' & i1' & t1' & s0' & s1' & A & B & C & D & Sh).
-    rewrite L0 in A. rewrite L1 in B. inversion A; inversion B; subst i0' t0' i1' t1'.
+    destruct (main_shape _ _ _ _ _ _ _ H) as (i0' & t0' & j0' & i1' & t1' & j1' & s0' & s1' & A & B & C & D & Sh).
+    rewrite L0 in A. rewrite L1 in B. inversion A; inversion B; subst i0' t0' j0' i1' t1' j1'.
     rewrite N0 in C. rewrite N1 in D. inversion C; inversion D; subst s0' s1'.
     destruct Sh as [c Hlt Hi _ _|c0 mid tl _ Hw' _ _ _ _|c0 m1 m2 tl _ _ _ Hc0 Hm1 Hm2 Ht ->].
     - subst i1. rewrite Hlt, Nat.eqb_refl in Hb. discriminate.
